@@ -159,3 +159,34 @@ Proof.
     { intro j. unfold mc_val. symmetry. apply mc_closed_form. exact Em. }
     destruct (first_bad _ 0 n); f_equal; apply map_ext; exact R.
 Qed.
+
+Lemma glue P M S a b c k :
+  min3 (length P) (length M) (length S) = avail_of a b c k ->
+  (forall j, (j < avail_of a b c k)%nat -> seqf P j = arg_nth a j) ->
+  (forall j, (j < avail_of a b c k)%nat -> seqf M j = arg_nth b j) ->
+  (forall j, (j < avail_of a b c k)%nat -> seqf S j = arg_nth c j) ->
+  take_res k (mc_sss 0 0 P M S) = mc_spec a b c k.
+Proof.
+  intros HN Hp Hm Hs. rewrite mc_list_gen, mc_spec_gen, HN. apply gen_spec_ext; assumption.
+Qed.
+
+Ltac glue_side := unfold avail_of, min3; cbn [arg_len omin]; rewrite ?repeat_length; try lia.
+Ltac glue_rep := intros j Hj; first [reflexivity | apply seqf_repeat; revert Hj; glue_side].
+
+(* modulo_counter = mc_spec: every numbers-vs-streams combination, every exact input, every number of pulls *)
+Theorem modulo_counter_is_spec start modulo step k :
+  modulo_counter start modulo step k = mc_spec start modulo step k.
+Proof.
+  destruct start as [p|ps]; destruct modulo as [m|ms]; destruct step as [s|ss]; cbn [modulo_counter].
+  - (* nnn *) rewrite mc_nnn_sss. apply glue; [glue_side|glue_rep|glue_rep|glue_rep].
+  - (* nns *) rewrite mc_nns_nss, (mc_nss_sss _ p 0 0 p) by ring.
+    apply glue; [glue_side|glue_rep|glue_rep|glue_rep].
+  - (* nsn *) rewrite mc_nsn_nss, (mc_nss_sss _ p 0 0 p) by ring.
+    apply glue; [glue_side|glue_rep|glue_rep|glue_rep].
+  - (* nss *) rewrite (mc_nss_sss _ p 0 0 p) by ring.
+    apply glue; [glue_side|glue_rep|glue_rep|glue_rep].
+  - (* snn *) rewrite mc_snn_sss. apply glue; [glue_side|glue_rep|glue_rep|glue_rep].
+  - (* sns *) rewrite mc_sns_sss. apply glue; [glue_side|glue_rep|glue_rep|glue_rep].
+  - (* ssn *) rewrite mc_ssn_sss. apply glue; [glue_side|glue_rep|glue_rep|glue_rep].
+  - (* sss *) apply glue; [glue_side|glue_rep|glue_rep|glue_rep].
+Qed.
